@@ -30,6 +30,10 @@ namespace
   {
     wc::VertexDict dict;
     std::vector<RankRec> ranks;
+    // generated extern partitions: the mesh file text with <Partition> blocks appended; what the control has to pick
+    std::string mesh_text;
+    std::vector<Index> expect_graph;   // flattened like RankRec::parti_graphs
+    std::string expect_name;
   };
   Shared* SH = nullptr;
 
@@ -96,8 +100,22 @@ namespace
       // element weights disable every a-priori partitioning (extern, 2-level, explicit): use them with the naive one only
       if(cfg.parti == 1) { domain.weight_mode = cfg.weight_mode; domain.weight_seed = cfg.assign_seed; if(wrank == 0 && cfg.weight_mode != 0) sim::probe("weighted_naive_partitioner_world"); }
       domain.set_desired_levels(String(cfg.levels));
-      std::deque<String> files; files.push_back(String(cfg.mesh_file));
-      domain.create(files, String("/repo/data/meshes"));
+      if(!SH->mesh_text.empty())
+      {
+        // the explicit assignment arrives as an extern partition of the mesh file (the real PartitionSet lookup by size,
+        // priority and level) instead of through the _check_parti seam
+        domain.use_explicit = false;
+        domain.select_partitioners(true, false, true, false, 0, 0, 1);
+        std::istringstream iss(SH->mesh_text);
+        Geometry::MeshFileReader reader;
+        reader.add_stream(iss);
+        domain.create(reader);
+      }
+      else
+      {
+        std::deque<String> files; files.push_back(String(cfg.mesh_file));
+        domain.create(files, String("/repo/data/meshes"));
+      }
       domain.add_trafo_mesh_part_charts();
 
       RankRec& rr = SH->ranks[size_t(wrank)];
@@ -170,6 +188,16 @@ namespace
       Reference ref;
       build_reference(cfg, max_level, ref);
 
+      // 10: a generated extern partition: the control must have picked the one with the highest priority among those of
+      // the right size, and use it as given
+      if(!SH->mesh_text.empty())
+        for(const RankRec& rr : SH->ranks)
+        {
+          if(rr.parti_info.find("'" + SH->expect_name + "'") == std::string::npos)
+            sim::fail("EXTERN_PARTITION", "the partition '" + SH->expect_name + "' of the mesh file (right size, highest priority) was not chosen: " + rr.parti_info);
+          if(rr.parti_graphs.empty() || rr.parti_graphs.front().second != SH->expect_graph)
+            sim::fail("EXTERN_PARTITION", "the partition graph in use differs from the extern partition '" + SH->expect_name + "' of the mesh file");
+        }
       // 9: all ranks report the same chosen levels
       for(const RankRec& rr : SH->ranks)
         if(rr.chosen_levels != SH->ranks[0].chosen_levels)
@@ -294,12 +322,97 @@ namespace
     }
   };
 
+  // number of cells of the mesh file on level 0 and refinement factor
+  template<typename Mesh_>
+  Index base_cells(const std::string& text)
+  {
+    std::istringstream iss(text);
+    Geometry::MeshFileReader reader;
+    reader.add_stream(iss);
+    Geometry::MeshAtlas<Mesh_> atlas;
+    auto node = Geometry::RootMeshNode<Mesh_>::make_unique(nullptr, &atlas);
+    reader.parse(*node, atlas, nullptr);
+    return node->get_mesh()->get_num_elements();
+  }
+
+  std::string partition_xml(const char* name, int prio, int level, Index np, const std::vector<Index>& owner)
+  {
+    std::ostringstream os;
+    os << "  <Partition name=\"" << name << "\" priority=\"" << prio << "\" level=\"" << level << "\" size=\"" << np << " " << owner.size() << "\">\n";
+    for(Index r = 0; r < np; ++r)
+    {
+      Index k = 0; for(Index o : owner) if(o == r) ++k;
+      os << "    <Patch rank=\"" << r << "\" size=\"" << k << "\">\n";
+      for(Index c = 0; c < Index(owner.size()); ++c) if(owner[c] == r) os << "      " << c << "\n";
+      os << "    </Patch>\n";
+    }
+    os << "  </Partition>\n";
+    return os.str();
+  }
+
+  // seeded assignment: every rank gets one cell, the rest random / one big patch + crumbs / stripes
+  std::vector<Index> seeded_owner(Index num_elems, Index np, unsigned long long seed, int mode)
+  {
+    std::vector<Index> owner(num_elems), perm(num_elems);
+    unsigned long long s = seed * 2862933555777941757ull + 3037000493ull;
+    auto rnd = [&s](Index m) { s = s * 6364136223846793005ull + 1442695040888963407ull; return Index((s >> 33) % m); };
+    for(Index i = 0; i < num_elems; ++i) perm[i] = i;
+    for(Index i = num_elems; i > 1; --i) std::swap(perm[i - 1], perm[rnd(i)]);
+    for(Index i = 0; i < num_elems; ++i)
+    {
+      Index r;
+      if(i < np) r = i;
+      else if(mode == 0) r = rnd(np);
+      else if(mode == 1) r = 0;
+      else r = (i * np) / num_elems;
+      owner[perm[i]] = r;
+    }
+    return owner;
+  }
+
   template<typename S_>
   void run_world(const wc::WorldCfg& cfg)
   {
     Shared sh;
     sh.ranks.resize(size_t(cfg.n));
     SH = &sh;
+    if(cfg.parti == 3 && cfg.layers == 1 && cfg.n > 1 && sim::cfg_int("explicit_via_file", 0, 1) == 1)
+    {
+      typedef typename S_::MeshType MeshType;
+      std::ifstream ifs(std::string("/repo/data/meshes/") + cfg.mesh_file);
+      std::string text((std::istreambuf_iterator<char>(ifs)), std::istreambuf_iterator<char>());
+      const size_t pe = text.rfind("</FeatMeshFile>");
+      if(pe == std::string::npos) sim::fail("INFRA", "mesh file without closing root tag");
+      const Index factor = Index(Geometry::Intern::StandardRefinementTraits<typename MeshType::ShapeType, MeshType::ShapeType::dimension>::count);
+      Index ne = base_cells<MeshType>(text);
+      int lvl = cfg.assign_level;
+      for(int l = 0; l < lvl; ++l) ne *= factor;
+      const Index np = Index(cfg.n);
+      while(ne < np) { ne *= factor; ++lvl; }
+      const std::vector<Index> best = seeded_owner(ne, np, cfg.assign_seed, cfg.adapt);
+      std::string parts;
+      // decoys: lower priority with the right size, right size but priority 0 (disabled), another size with a high priority
+      parts += partition_xml("gen:low", 1, lvl, np, seeded_owner(ne, np, cfg.assign_seed + 17u, 2));
+      parts += partition_xml("gen:best", 3, lvl, np, best);
+      parts += partition_xml("gen:off", 0, lvl, np, seeded_owner(ne, np, cfg.assign_seed + 5u, 0));
+      parts += partition_xml("gen:other-size", 9, lvl, np + 1u, seeded_owner(ne, np + 1u, cfg.assign_seed, 0));
+      text.insert(pe, parts);
+      // drop the shipped partitions of the same size: a shipped priority could legitimately win
+      for(size_t p = text.find("<Partition name=\"auto\""); p != std::string::npos; p = text.find("<Partition name=\"auto\"", p))
+      {
+        size_t e = text.find("</Partition>", p);
+        if(e == std::string::npos) break;
+        text.erase(p, e + 12 - p);
+      }
+      sh.mesh_text = text;
+      sh.expect_name = "gen:best";
+      sh.expect_graph.push_back(np); sh.expect_graph.push_back(ne);
+      Index k = 0;
+      for(Index r = 0; r < np; ++r) { sh.expect_graph.push_back(k); for(Index o : best) if(o == r) ++k; }
+      sh.expect_graph.push_back(k);
+      for(Index r = 0; r < np; ++r) for(Index c = 0; c < ne; ++c) if(best[c] == r) sh.expect_graph.push_back(c);
+      sim::probe("extern_partition_generated");
+    }
     simmpi::world_begin(cfg.n, [cfg](int r) { S_::rank_body(r, cfg); });
     // genetic partitioner: the simulated clock advances a seeded amount per read, so every rank does a different,
     // small number of rounds
